@@ -292,6 +292,18 @@ func init() {
 			})
 		}
 		f.boolFact("refFilterIsLiteralPrefix", usesSubstr && !usesLike)
+		// C08: enqueueWants walks through commits listed for an earlier want while within the depth
+		ew := f.funcDecl("pkg/api/utils/closed_sets_finder.go", "ClosedSetsFinder", "enqueueWants")
+		revisit := false
+		if ew != nil {
+			ast.Inspect(ew.Body, func(n ast.Node) bool {
+				if is, ok := n.(*ast.IfStmt); ok && f.src(is.Cond) == "seen && (f.depth == 0 || cd.depth >= f.depth)" {
+					revisit = true
+				}
+				return true
+			})
+		}
+		f.boolFact("finderRevisitsWithinDepth", revisit)
 		// C06: packfile header bit count
 		eh := f.funcDecl("pkg/encoding/packfile/packfile.go", "", "encodeObjTypeAndLen")
 		bt := f.declType(eh, "bits")
